@@ -78,10 +78,12 @@ def gen_stmt(rng, k):
           "trigw": rng.choice([1, 1, 2, 3]), "fields": [], "chunks": [{"lit": f"s{k}"}]}
     for i in range(rng.choice([0, 1, 1, 2, 3])):
         st["fields"].append({"width": rng.randint(1, 8), "signed": rng.random() < 0.4, "kw": rng.random() < 0.3})
-        st["chunks"].append({"lit": rng.choice([" ", " a=", ", val:", " 0x", "|"])})
+        # literal text incl. characters that are special to printf-style formatting ("%") -- the message must
+        # arrive verbatim whatever the Python logging layer does with it
+        st["chunks"].append({"lit": rng.choice([" ", " a=", ", val:", " 0x", "|", " 50% ", " %d ", "%%", " %s"])})
         st["chunks"].append({"field": i + 1, "spec": gen_spec(rng)})
     if rng.random() < 0.5:
-        st["chunks"].append({"lit": rng.choice(["!", " end", ""])})
+        st["chunks"].append({"lit": rng.choice(["!", " end", "", "%", " 100%"])})
     for _ in range(rng.choice([0, 1, 1, 2])):
         c = rng.choice(["c0", "c1", "sw"])
         if c == "sw":
